@@ -138,9 +138,9 @@ def rank_deficient_cases(rng, n):
     while len(out) < n:
         N = int(rng.choice([8, 12, 17, 32, 64]))
         t = np.arange(N)
-        # shapes 2, 3 (one exponential / one sinusoid: regressors dependent only up to rounding) are NOT drawn: on the
-        # unchanged tree arcovar / modcovar then depend on lstsq's singular-value cutoff (DESIGN.md section 5, open observation)
-        shape = int(rng.randint(2))
+        # shapes 2, 3 (one exponential / one sinusoid): regressors dependent only up to rounding - the inputs behind
+        # fix c589fcc (lstsq singular-value cutoff)
+        shape = int(rng.randint(4))
         if shape == 0:
             x, r = np.full(N, rng.uniform(0.5, 3)), 1
         elif shape == 1:
